@@ -189,6 +189,35 @@ def run_canceller(w, which, during=None):
     return {'during_fired': len(fired)}
 
 
+async def aapply_client(w, label):
+    """The staging requests of a client (new_update / add_groups / add_jobs) as a coroutine, for use INSIDE another
+    operation's window (apply() starts its own loop run)."""
+    from aiohttp import web
+
+    from batch.front_end import front_end as fe
+    from batch.front_end.validate import validate_and_clean_jobs, validate_batch_update, validate_job_groups
+
+    kind = label[0]
+    try:
+        if kind == 'new_update':
+            _, u, tok, nj, ng = label
+            validate_batch_update({'token': tok, 'n_jobs': nj, 'n_job_groups': ng})
+            return {'update': list(await fe._create_batch_update(BID, tok, nj, ng, u, w.gdb))}
+        if kind == 'add_groups':
+            _, u, upd, specs = label
+            specs = [dict(s) for s in json.loads(json.dumps(specs))]
+            validate_job_groups(specs)
+            return {'status': (await fe._create_job_groups(w.gdb, BID, upd, u, specs)).status}
+        if kind == 'add_jobs':
+            _, u, upd, specs = label
+            specs = json.loads(json.dumps(specs))
+            validate_and_clean_jobs(specs)
+            return {'status': (await fe._create_jobs(user(u), specs, BID, upd, w.app)).status}
+    except web.HTTPException as e:
+        return _http(e)
+    raise ValueError(label)
+
+
 def _reported(w, j, att):
     """the worker's completion report for (job, attempt) has been delivered and acknowledged: it will not send it again"""
     w.reported = frozenset(getattr(w, 'reported', frozenset()) | {(j, att)})
